@@ -7,6 +7,7 @@ import (
 	"fmt"
 	"html"
 	"math"
+	"math/big"
 	"math/rand"
 	"net/url"
 	"reflect"
@@ -2063,19 +2064,9 @@ func (e *CoreExtension) filterRound(value interface{}, args ...interface{}) (int
 		}
 	}
 
-	// Apply rounding
-	var result float64
-	switch method {
-	case "ceil", "ceiling":
-		shift := math.Pow(10, float64(precision))
-		result = math.Ceil(num*shift) / shift
-	case "floor":
-		shift := math.Pow(10, float64(precision))
-		result = math.Floor(num*shift) / shift
-	default: // "common" or any other value
-		shift := math.Pow(10, float64(precision))
-		result = math.Round(num*shift) / shift
-	}
+	// Apply rounding on the decimal value the number was written as (1.005 is 1.005, not the
+	// double just below it), so that halves round away from zero and exact values stay put
+	result := roundDecimal(num, precision, method)
 
 	// If precision is 0, return an integer
 	if precision == 0 {
@@ -2083,6 +2074,44 @@ func (e *CoreExtension) filterRound(value interface{}, args ...interface{}) (int
 	}
 
 	return result, nil
+}
+
+// roundDecimal rounds the shortest decimal representation of num to the given number of decimals
+// with exact arithmetic. method is "ceil"/"ceiling", "floor" or anything else for half away from zero.
+func roundDecimal(num float64, precision int, method string) float64 {
+	r, ok := new(big.Rat).SetString(strconv.FormatFloat(num, 'f', -1, 64))
+	if !ok || math.IsInf(num, 0) || math.IsNaN(num) {
+		return num
+	}
+	digits := precision
+	if digits < 0 {
+		digits = -digits
+	}
+	shift := new(big.Rat).SetInt(new(big.Int).Exp(big.NewInt(10), big.NewInt(int64(digits)), nil))
+	if precision < 0 {
+		shift.Inv(shift)
+	}
+	r.Mul(r, shift)
+	// floor of the scaled value
+	q := new(big.Int).Div(r.Num(), r.Denom()) // Euclidean division: rounds towards -inf for a positive denominator
+	exact := new(big.Rat).SetInt(q).Cmp(r) == 0
+	switch method {
+	case "ceil", "ceiling":
+		if !exact {
+			q.Add(q, big.NewInt(1))
+		}
+	case "floor":
+	default:
+		// half away from zero: floor(|x| + 1/2) with the sign put back
+		a := new(big.Rat).Abs(r)
+		a.Add(a, big.NewRat(1, 2))
+		q.Div(a.Num(), a.Denom())
+		if r.Sign() < 0 {
+			q.Neg(q)
+		}
+	}
+	out, _ := new(big.Rat).Quo(new(big.Rat).SetInt(q), shift).Float64()
+	return out
 }
 
 func (e *CoreExtension) filterNl2Br(value interface{}, args ...interface{}) (interface{}, error) {
